@@ -23,6 +23,17 @@ ARQ = ("Modelled, not verified: f64 rounding (exact integer lengths, multiples o
        "unbounded recursion, adequacy is a theorem under the arena invariant (depth < size by pigeonhole); stack depth on extremely deep trees. ")
 
 CLAIMS = {
+ "C14": dict(
+   text="Kernel-checked theorems on the character-level model of the Phylip writer and the three parsing entry points (str::lines, split_whitespace, usize::from_str "
+        "transcribed; entries through a codec): strictness — a text accepted by the strict parser has exactly as many rows as its declared size, every row exactly the "
+        "required number of distances (size, or the row number), and a zero diagonal in the square layout; totality of the triangular parser and of the strict parser's row "
+        "loop (no panic branch is reachable for any text); a missing or non-numeric header is rejected by every entry point; the string layer of the round trip (fields joined "
+        "by blanks split back, terminated lines come back). Tied to the crate by comparing outcome class, taxa and every value (bit patterns through Rust's own float parser) on "
+        "EVERY string up to a length bound over 0 1 . a space newline for all three entry points, mutated valid files, and matrices with f64 and f32 entries incl. arbitrary bit "
+        "patterns written in both layouts (text compared byte for byte) and parsed back; oracles on the real code: no panic, bit-exact round trip, the strictness conditions re-derived "
+        "with Rust's own lines/split_whitespace. The full cell-for-cell round-trip theorem and the absence of a panic in the by-name fill are decided by these checks, not yet by theorems.",
+   note=NOTE + FLOATTXT + "The symmetry test of the strict parser compares f64 values; the model compares the exact decimal values of the lexemes (equal for every generated pair). Texts declaring a size above 2000 are skipped (allocation limits are outside the property).",
+   technique="Lean 4 proofs on the character-level Phylip parser model (strictness, totality) + exhaustive short-text and bit-exact round-trip differential execution", ref="5 C14"),
  "C13": dict(
    text="Kernel-checked theorems for EVERY matrix size: the triangular index maps unordered pairs of distinct taxa below n injectively into [0, n(n-1)/2), symmetric in its "
         "arguments, with an explicit integer inverse proved to be a two-sided inverse (so cells and pairs are in bijection); by-index and by-name store laws (a value set for a pair "
